@@ -5,20 +5,33 @@ Valid rule / correlation / filter documents are mutated at every path: every val
 UUID / timespan / operator values; plus arbitrary nested YAML.  Each document is loaded strictly and with error
 collection.  Deciding: strict loading succeeds or raises an exception from the Sigma hierarchy; collecting
 loading never raises; its error list is non-empty exactly when strict loading raises, and its first error is
-the one strict loading raises (same class and message)."""
+the one strict loading raises (same class and message).
+
+Correspondence (K): every document is also sent to the Lean loader model (`load.case`,
+lean/SigmaVerif/Model/Load.lean); on documents the model claims (`inDomain`) the strict outcome class,
+the collecting outcome and the ordered list of collected error classes must coincide with the
+implementation's — a disagreement is reported as model drift (diagnostic, not a violation)."""
 from __future__ import annotations
-import copy, random
-from .common import Verdict, outcome_of_exception
+import copy, random, sys
+from .common import Verdict, outcome_of_exception, cps
 
 ID = "C07"
-GEN = []
-RULE = ("three valid base documents per kind (rule, correlation, filter) x every path x 12 replacement values of every YAML "
+GEN = ["LoadGuards"]
+RULE = ("stream 1: three valid base documents per kind (rule, correlation, filter) x every path x 14 replacement values of every YAML "
         "type + key deletion + out-of-range values for enums/dates/UUIDs/timespans/operators; collection level: action keys, "
-        "non-map documents; plus seeded random nested YAML; distinct = distinct (kind, document); non-trivial = a mutated "
-        "(not the base) document")
+        "non-map documents; seeded random nested YAML.  stream 2 (also stresses the Lean model): five correlation bases incl. extended "
+        "conditions x every path x 15 further values (non-finite/zero floats, False, big int, maps with non-string keys) + per-key "
+        "special values (UUID spellings, calendar edge dates, int()/timespan spellings, condition strings and maps, log sources, "
+        "detection sections) + key renames (non-string keys, modifier chains) + seeded multi-point mutations; fixed sub-stream of the "
+        "places where exceptions used to escape (N1-N9); collections: global/repeat/reset sequences, filters next to rules, every "
+        "sampled document as one-document collection, seeded document pairs; distinct = distinct (kind, document); "
+        "non-trivial = a mutated (not the base) document")
 ASSUMPTIONS = [
     "documents are YAML-representable Python values (no custom tags); loading goes through from_dict / SigmaCollection.from_dicts",
     "'the same error' = same exception class and same message text",
+    "the Lean model covers the JSON-like fragment of YAML (null, bool, int, float, str, list, map with scalar keys; no dates, binaries, sets)",
+    "model comparison only on documents the model claims (inDomain): ASCII strings, str/int/null keys, modifier chains that are a single "
+    "contains/startswith/endswith/re (safe regular expressions), UUID strings int(.,16) cannot rescue, shallow extended conditions",
 ]
 REPL = [None, True, 0, -1, 3.5, "", "str", "2024-13-45", [], ["x"], {}, {"k": "v"}, [["n"]], {"a": {"b": [1, {"c": None}]}}]
 SPECIAL = {"id": ["not-a-uuid", "1234", 5], "status": ["bogus"], "level": ["bogus"], "date": ["2024-02-30", "24-01-01", "2024/1/1"],
@@ -44,6 +57,14 @@ BASES = {
          "filter": {"rules": ["r1"], "flt": {"f": "a"}, "flt2": {"g|contains": ["x"]}, "condition": "not flt"}},
     ],
 }
+
+
+# bases of the second (model stress) stream: the bases above plus an extended condition with a rules list
+BASES2 = {k: list(v) for k, v in BASES.items()}
+BASES2["corr"] = BASES2["corr"] + [
+    {"title": "C4", "correlation": {"type": "temporal_ordered", "rules": ["r1", "r2"], "timespan": "2w", "condition": "r1 and (not r2 or r1)", "generate": False}},
+    {"title": "C5", "correlation": {"type": "value_percentile", "rules": "r1", "group-by": "u", "timespan": "1M", "condition": {"gt": 1, "field": "f", "percentile": 95}}},
+]
 
 
 def paths(d, pre=()):
@@ -83,10 +104,168 @@ def rand_yaml(rnd, depth=3):
     return {rnd.choice(keys): rand_yaml(rnd, depth - 1) for _ in range(rnd.randint(0, 4))}
 
 
+INF, NAN = float("inf"), float("nan")
+# second replacement set (model stress): non-finite / zero floats, False, a 100-bit integer, odd strings
+REPL2 = [INF, NAN, 0.0, -0.0, False, 2 ** 100, " ", "a.b", "A|B", [None], [INF], [{}], {"": ""}, {1: 2}, {None: None}]
+KEYS2 = [1, None, True, 2.5, "", "x|contains", "f|bogus", "f|all", "|re", "f|re|i", "f|", "condition", "rules"]
+UUID_ = "929a690e-bef0-4204-a928-ef5e620d6fcc"
+SPECIAL2 = {
+    "id": ["{" + UUID_ + "}", "urn:uuid:" + UUID_, UUID_.upper(), UUID_.replace("-", ""), UUID_ + "0", UUID_[:-1], "0x" + UUID_.replace("-", "")[2:],
+           UUID_.replace("-", "")[:-2] + "_1", " " + UUID_.replace("-", "")[1:], "g" + UUID_[1:], "-" * 40, "\u0661" + UUID_[1:]],
+    "status": ["TEST", "Test", "tEsT ", "te\u017ft", ""], "level": ["HIGH", "High", " high", "h\u0131gh", "critical", "informational"],
+    "date": ["2024-02-29", "2023-02-29", "1900-02-29", "2000-02-29", "1000-01-01", "0999-01-01", "3999-12-31", "4000-01-01", "2024-00-10", "2024-01-00",
+             "2024-04-31", "2024/2/9", "2024/02/9", "2024/13/1", "2024/1/32", "2024/1/1/", "2024//1", "2024/1", "2024-1-01", " 2024-01-01", "2024-01-01\n",
+             "\u0662024-01-01", "2024-01-31T00:00:00"],
+    "modified": ["2024/12/31", "2024/0/1", "2024/1/0", "2024/19/1", "2024/1/39", "2024/20/1", "2024/1/40", "2024/001/1"],
+    "timespan": [" 5m", "5m ", "+5m", "--5m", "1_0m", "1__0m", "_1m", "1_m", "5M", "5y", "5w", "5S", "\u0665m", "5", "m", "0m", "00012d", ["5", "m"], {"5": "m"}, INF, True,
+                 "9" * 5000 + "s", "5\u00b5"],
+    "type": ["EVENT_COUNT", "Temporal", "temporal_ordered", "value_sum", "value_avg", "value_percentile", "value_median", "temporal ", "temporal_extended", ""],
+    "gte": ["10", " 1_0 ", "+3", "1e3", True, [1], {}, INF, -INF, NAN, 2.9, "\u0663", ""],
+    "lt": ["3", None, INF],
+    "rules": ["r1", [], [1], [None], [["n"]], ["r1", 2], {"r1": 1}, "", ["r1", "r1"], ["r1", "r2", "r3"], ["not"], True],
+    "condition": ["r1", "r2", "not", "and", "r1 and", "(r1 or r2) and not r3", "r1 and and", "1r", "r1 & r2", "((r1))", "not not r1", "r1 or", "r1 $", "", " ", "r1\tand\nr2",
+                  "r1 AND r2", "r1 and(r2)", "not(r1)", "(r1", "r1)", "()", "r_1 or _r2", "r1 or r2 or r3 and r1", "r1 r2", "r\u00e91", "r1\x0band r2", "(" * 30 + "r1" + ")" * 30,
+                  {"gte": 1, "lte": 2}, {"gte": 1, "x": 2}, {"gte": 1, 1: 2}, {"gte": 1, None: 2}, {"x": 1}, {"gte": 1, "percentile": "x"}, {"gte": 1, "percentile": INF},
+                  {"gte": 1, "percentile": 50, "field": None}, {"eq": 1, "field": ["a", "b"]}, {"neq": "7", "field": ""}, {"GTE": 1}, {"field": "f"}, {"percentile": 5},
+                  ["a and b"], [], [[]], 5, None],
+    "group-by": ["u", [1, None, ["x"]], {"u": 1}, 5, ""],
+    "aliases": [{"u": 5}, {"u": {}}, {1: {2: 3}}, {"u": {"r1": ["x"]}}, {"u": None}, [], {}],
+    "generate": [False, 0, 1, "true", None],
+    "tags": [["a.b", "ab", 5, ".", "a.", ".a", "a.b.c", "", None, ["x.y"]], ["nodot"], [[]], "a.b"],
+    "related": [[{"id": UUID_}], [{"type": "derived"}], [{"id": UUID_, "type": "bogus"}], [{"id": UUID_, "type": "OBSOLETE"}], [{"id": 5, "type": "derived"}],
+                [{"id": UUID_, "type": 5}], [{"id": "x", "type": "derived"}], [5], [None], [[]], [{"id": UUID_, "type": "similar"}, 5], [{"id": UUID_.replace("-", "")[:-2] + "_1", "type": "merged"}],
+                [{"id": None, "type": None}], [{1: 2}], [{"id": UUID_, "type": "renamed", "x": 1}, {"id": UUID_, "type": "correlation"}]],
+    "title": ["x" * 256, "x" * 257, "\u00e9" * 256, ""],
+    "name": ["", " ", "n"], "taxonomy": ["", "x", None],
+    "logsource": [{"category": 0}, {"category": ""}, {"category": [], "product": "p"}, {"category": None, "product": None, "service": None}, {"definition": "d"},
+                  {"category": "c", "definition": 5}, {"category": "c", "definition": 0}, {"product": 1.5}, {"service": {}}, {"service": {"a": 1}}, {"category": False},
+                  {"category": True}, {"category": "c", "x": 1, 2: 3}, {"category": 0.0, "product": "p"}, {"category": NAN}],
+    "detection": [{"condition": "s"}, {"s": {"f": 1}}, {"s": {"f": 1}, "condition": []}, {"s": {"f": 1}, "condition": [[]]}, {"s": {"f": 1}, "condition": None},
+                  {"s": {"f": 1}, "condition": {"a": 1}}, {"s": {}, "condition": "s"}, {"s": [], "condition": "s"}, {"s": [{}], "condition": "s"}, {"s": [[]], "condition": "s"},
+                  {"s": [[{}]], "condition": "s"}, {"s": [[[1, [2, {"a": 1}]]]], "condition": "s"}, {"s": None, "condition": "s"}, {"s": INF, "condition": "s"},
+                  {"s": [1, INF], "condition": "s"}, {"s": {1: "x"}, "condition": "s"}, {"s": {None: "x"}, "condition": "s"}, {"s": {True: "x"}, "condition": "s"},
+                  {1: {"f": "x"}, "condition": "s"}, {None: "kw", "condition": "s"}, {"s": {"f|contains": [1, [2]]}, "condition": "s"}, {"s": {"f|contains": [[2], 1]}, "condition": "s"},
+                  {"s": {"f|contains": [INF, 1]}, "condition": "s"}, {"s": {"f|bogus": [[2]]}, "condition": "s"}, {"s": {"f|startswith": None}, "condition": "s"},
+                  {"s": {"f|endswith": True}, "condition": "s"}, {"s": {"f|re": 5}, "condition": "s"}, {"s": {"f|re": ["a+", 5]}, "condition": "s"}, {"s": {"|contains": "k"}, "condition": "s"},
+                  {"s": {"": "k"}, "condition": "s"}, {"s": {"f|": "k"}, "condition": "s"}, {"s": {"f": {"g": 1}}, "condition": "s"}, {"s": {"f": [{"g": 1}]}, "condition": "s"},
+                  {"s": {"a": 1, "b|bogus": 2, "c": [[1]]}, "condition": "s"}, {"s": {"a": [[1]], "b|bogus": 2}, "t": {}, "condition": "s"}, {"t": {}, "s": {"a": [[1]]}, "condition": "s"},
+                  {"s": [{"a": 1}, "kw", 5, None, [1, 2]], "condition": "s"}, {"s": 2 ** 2000, "condition": "s"}, "condition", ["condition"], {"condition": []}],
+}
+FSPECIAL = {
+    "filter": [{"rules": "any", "condition": "not f"}, {"rules": "ANY", "f": {"a": 1}, "condition": "not f"}, {"rules": [], "f": {"a": 1}, "condition": "not f"}, {"f": {"a": 1}, "condition": "not f"},
+               {"rules": "any", "f": {"a": 1}}, {"rules": None, "f": {"a": 1}, "condition": "not f"}, {"rules": 5, "f": {"a": 1}, "condition": "not f"},
+               {"rules": {"a": 1}, "f": {"a": 1}, "condition": "not f"}, {"rules": [5, None, ["x"]], "f": {"a": 1}, "condition": "not f"}, {"rules": "any", "f": {"a": 1}, "condition": ["not f"]},
+               {"rules": "any", "f": {"a": 1}, "condition": None}, {"rules": "any", 1: {"a": 1}, "condition": "not f"}, {"rules": "any", "f": {1: 1}, "condition": "not f"},
+               {"rules": "any", "f": {}, "condition": "not f"}, {"rules": "any", "f": {"a|bogus": 1}, "condition": "not f"}, {"rules": "any", "f": [[{}]], "condition": "not f"},
+               ["condition", "rules"], "condition"],
+}
+RULE_ = {"title": "t", "logsource": {"category": "c"}, "detection": {"s": {"f": "x"}, "condition": "s"}}
+FILT_ = {"title": "F", "logsource": {"category": "c"}, "filter": {"rules": "any", "flt": {"f": "a"}, "condition": "not flt"}}
+CORR_ = {"title": "C", "correlation": {"type": "event_count", "rules": ["r"], "timespan": "1m", "condition": {"gte": 1}}}
+
+
+def upd(base, path, value):
+    return set_path(base, path, value)
+
+
+# fixed sub-stream: the places where non-Sigma exceptions (or Sigma errors in collecting mode) used to escape
+ESCAPES = [
+    ("rule", upd(RULE_, ("detection", "s"), {1: "x"})), ("rule", upd(RULE_, ("detection", "s"), {True: "x"})), ("rule", upd(RULE_, ("detection", "s"), {2.5: "x"})),
+    ("filter", upd(FILT_, ("filter", "flt"), {1: "x"})), ("filter", upd(FILT_, ("filter", "flt"), [[{1: 1}]])),
+    ("corr", upd(CORR_, ("correlation", "condition"), {"gte": 1, 1: 2})), ("corr", upd(CORR_, ("correlation", "condition"), {"gte": 1, None: 2})),
+    ("corr", upd(CORR_, ("correlation", "condition"), {"gte": 1, 1: 2, "a": 3})),
+    ("corr", upd(CORR_, ("correlation", "condition"), {"gte": INF})), ("corr", upd(CORR_, ("correlation", "condition"), {"gte": -INF})),
+    ("corr", upd(CORR_, ("correlation", "condition"), {"gte": 1, "percentile": INF})), ("corr", upd(CORR_, ("correlation", "condition"), {"gte": NAN})),
+    ("corr", {"title": "t", "correlation": {"type": "temporal", "rules": [["n"]], "timespan": "1m", "condition": "r1 and r2"}}),
+    ("corr", {"title": "t", "correlation": {"type": "temporal", "rules": [1], "timespan": "1m", "condition": "r1"}}),
+    ("corr", {"title": "t", "correlation": {"type": "temporal", "rules": [1, "a"], "timespan": "1m", "condition": "r1"}}),
+    ("corr", {"title": "t", "correlation": {"type": "temporal", "rules": [None, {}], "timespan": "1m", "condition": "r1"}}),
+    ("corr", {"title": "t", "correlation": {"type": "temporal_ordered", "rules": ["r1", "r2"], "timespan": "1m", "condition": "r1 and r3"}}),
+    ("collection", [{"action": "global", "detection": {"a": 1}}, {"detection": 5}]),
+    ("collection", [{"action": "global", "x": {"a": {"b": 1}}}, {"x": {"a": [1]}}]),
+    ("collection", [{"action": "global", "x": {"a": {"b": 1}}}, {"x": "str"}]),
+    ("collection", [{"title": "t", "x": [1]}, {"action": "repeat", "x": {0: 2}}]),
+    ("collection", [{"title": "t", "x": 5}, {"action": "repeat", "x": {"a": {"b": {}}}}]),
+    ("collection", [dict(RULE_, name=["x"])]), ("collection", [dict(RULE_, name={"x": 1})]), ("collection", [dict(CORR_, name=["x"])]),
+    ("collection", [dict(RULE_, name=5), dict(RULE_, name="n"), dict(RULE_, id=["x"])]),
+    ("collection", [RULE_, dict(FILT_, logsource=5)]), ("collection", [RULE_, dict(FILT_, logsource={})]), ("collection", [dict(FILT_, logsource=5), RULE_]),
+    ("collection", [RULE_, upd(FILT_, ("filter", "flt"), 5) | {"filter": {"rules": "any", 1: {"f": "a"}, "condition": "not flt"}}]),
+    ("collection", [RULE_, dict(FILT_, filter={"rules": "any", None: {"f": "a"}, "condition": "not flt"})]),
+    ("collection", [RULE_, dict(FILT_, filter={"rules": [0], "flt": {"f": "a"}, "condition": "not flt"})]),
+    ("collection", [RULE_, dict(FILT_, filter={"rules": [["x"], True, 2.5, None], "flt": {"f": "a"}, "condition": "not flt"})]),
+    ("collection", [dict(RULE_, detection=5), FILT_]), ("collection", [dict(RULE_, logsource=5), FILT_]), ("collection", [RULE_, FILT_, CORR_]),
+    ("collection", [upd(RULE_, ("detection", "condition"), 5), FILT_]), ("collection", [upd(RULE_, ("detection", "condition"), [["a"], None]), FILT_]),
+    ("collection", [RULE_, upd(FILT_, ("filter", "condition"), "x |")]), ("collection", [RULE_, upd(FILT_, ("filter", "condition"), "")]),
+]
+COLLECTIONS = [
+    [{"action": "global", "title": "g", "logsource": {"category": "c"}}, {"detection": {"s": {"f": 1}, "condition": "s"}}, {"action": "repeat", "title": 5},
+     {"action": "reset"}, {"detection": {"s": {"f": 1}, "condition": "s"}}],
+    [{"action": "global", "title": "g", "logsource": {"category": "c"}, "detection": {"condition": "s"}}, {"action": "repeat", "detection": {"s": {"f": 1}}},
+     {"detection": {"t": {"f|bogus": 1}}}, {"action": "repeat", "detection": {"t": {"g": 2}}}],
+    [{"action": "repeat"}], [{"action": "repeat", "title": "t", "logsource": {"category": "c"}, "detection": {"s": {"f": 1}, "condition": "s"}}],
+    [{"action": "global", "action2": 1}, {"action": "global", "title": "h"}, {"action": "repeat", "x": 1}, RULE_],
+    [{"action": "global", "title": "g"}, {"action": "repeat", "logsource": {"product": "p"}}, {"detection": {"s": {"f": 1}, "condition": "s"}}],
+    [{"action": None, "title": "x"}], [{"action": ""}], [{"action": 0}], [{"action": False}], [{"action": "Global"}], [{"action": "global"}, 5, "x", None, [RULE_]],
+    [CORR_, {"action": "repeat", "title": "again"}], [FILT_, {"action": "repeat", "title": "again"}], [{"correlation": 5, "filter": 6}], [{"filter": 5}], [{"correlation": None}],
+    [{"action": "global", "correlation": {"type": "temporal"}}, {"title": "t"}], [{"action": "global", "filter": {"rules": "any"}}, {"title": "t"}],
+    [{"action": "global", "tags": ["a.b"], "detection": {"s": {"f": [1]}}}, {"title": "t", "tags": "x", "logsource": {"category": "c"}, "detection": {"s": {"g": 2}, "condition": "s"}}],
+    [], {}, {"action": "global"}, 5, None, "str", [[]], [{}],
+]
+
+
 def gen_cases(tier, seed, gen, effort):
     rnd = random.Random(seed * 10007 + 7)
     thorough = tier == "thorough"
     cases = []
+    for kind, doc in ESCAPES:
+        cases.append({"kind": kind, "doc": doc, "mut": "escape"})
+    for doc in COLLECTIONS:
+        cases.append({"kind": "collection", "doc": doc, "mut": "collection2"})
+    for kind, bases in BASES2.items():
+        for base in bases:
+            cases.append({"kind": kind, "doc": base, "mut": "base"})
+            for path in paths(base):
+                if not path:
+                    continue
+                for v in REPL2:
+                    cases.append({"kind": kind, "doc": set_path(base, path, v), "mut": f"set2:{path}"})
+                if isinstance(path[-1], str):
+                    for v in SPECIAL2.get(path[-1], []) + (FSPECIAL.get(path[-1], []) if kind == "filter" else []):
+                        if kind == "filter" and path[-1] in ("rules", "condition"):
+                            continue                      # those lists are for correlation sections
+                        cases.append({"kind": kind, "doc": set_path(base, path, v), "mut": f"special2:{path}"})
+                    for k in KEYS2:                        # rename the key (the renamed entry moves to the end)
+                        d = set_path(base, path, None, delete=True)
+                        parent = d
+                        for p_ in path[:-1]:
+                            parent = parent[p_]
+                        if k in parent:
+                            continue
+                        val = base
+                        for p_ in path:
+                            val = val[p_]
+                        parent[k] = copy.deepcopy(val)
+                        cases.append({"kind": kind, "doc": d, "mut": f"key:{path}"})
+            # multi-point mutations: two or three random paths get random values
+            for _ in range((150 if not thorough else 1500) * effort):
+                d = base
+                for _ in range(rnd.randint(2, 3)):
+                    ps = [p_ for p_ in paths(d) if p_]
+                    if not ps:
+                        break
+                    path = rnd.choice(ps)
+                    pool = REPL + REPL2 + (SPECIAL2.get(path[-1], []) if isinstance(path[-1], str) else [])
+                    d = set_path(d, path, rnd.choice(pool)) if rnd.random() < 0.85 else set_path(d, path, None, delete=True)
+                cases.append({"kind": kind, "doc": d, "mut": "multi"})
+    # any single document is also a one-document collection; and pairs of documents
+    singles = [c for c in cases if c["kind"] != "collection"]
+    for c in rnd.sample(singles, min(len(singles), (300 if not thorough else 3000) * effort)):
+        cases.append({"kind": "collection", "doc": [c["doc"]], "mut": "single-as-collection"})
+    for _ in range((200 if not thorough else 2000) * effort):
+        a, b = rnd.choice(singles)["doc"], rnd.choice(singles)["doc"]
+        pre = rnd.choice([[], [{"action": "global", "title": "G", "level": "low", "logsource": {"product": "p"}}], [{"action": "global", "detection": {"extra": {"z": 1}}}]])
+        mid = rnd.choice([[], [{"action": "reset"}], [{"action": "repeat", "status": "stable", "detection": {"more": ["kw"]}}]])
+        cases.append({"kind": "collection", "doc": pre + [a] + mid + [b], "mut": "pair-collection"})
     for kind, bases in BASES.items():
         for base in bases:
             cases.append({"kind": kind, "doc": base, "mut": "base"})
@@ -105,7 +284,8 @@ def gen_cases(tier, seed, gen, effort):
     for v in [[{"action": "global", "title": "g"}, {"detection": {"s": {"f": 1}, "condition": "s"}, "logsource": {"category": "c"}}],
               [{"action": "bogus"}], [{"action": "repeat"}], [5], ["str"], [None], [{"action": "reset"}, {"title": "x"}]]:
         cases.append({"kind": "collection", "doc": v, "mut": "collection"})
-    return cases, False
+    # cases carry the document in the portable encoding (replayable: non-string keys, inf/nan survive)
+    return [{"kind": c["kind"], "show": repr(c["doc"])[:100], "mut": c["mut"], "doc": penc(c["doc"])} for c in cases], False
 
 
 def load(kind, doc, collect):
@@ -125,8 +305,9 @@ def load(kind, doc, collect):
 
 def run_impl(case):
     out = {}
+    doc = dec(case["doc"])
     try:
-        load(case["kind"], case["doc"], False)
+        load(case["kind"], doc, False)
         out["strict"] = "ok"
     except Exception as e:
         out["strict"] = outcome_of_exception(e)
@@ -136,10 +317,11 @@ def run_impl(case):
         site = [f for f in tb if "/sigma/" in f.filename]
         out["site"] = f"{site[-1].filename.split('/sigma/')[-1]}:{site[-1].name}" if site else "?"
     try:
-        obj = load(case["kind"], case["doc"], True)
+        obj = load(case["kind"], doc, True)
         errs = list(obj.errors)
         out["collect"] = "ok"
         out["nerr"] = len(errs)
+        out["errs"] = [type(e).__name__ for e in errs]
         if errs:
             out["first"] = f"sigma:{type(errs[0]).__name__}" if hasattr(errs[0], "source") or True else "?"
             out["first_msg"] = str(errs[0])[:200]
@@ -154,15 +336,84 @@ def run_impl(case):
     return out
 
 
+def penc(v):
+    """YAML value -> portable JSON (stored in cases and replay files): maps keep their order and their
+    non-string keys, non-finite floats survive."""
+    if v is None or isinstance(v, bool):
+        return v
+    if isinstance(v, int):
+        return {"i": v}
+    if isinstance(v, float):
+        return {"f": repr(v)}
+    if isinstance(v, str):
+        return {"s": v}
+    if isinstance(v, list):
+        return {"l": [penc(x) for x in v]}
+    if isinstance(v, dict):
+        return {"m": [[penc(k), penc(x)] for k, x in v.items()]}
+    raise TypeError(f"not a YAML value of the modelled fragment: {type(v)}")
+
+
+def dec(j):
+    """portable JSON -> YAML value"""
+    if j is None or isinstance(j, bool):
+        return j
+    if "i" in j:
+        return j["i"]
+    if "f" in j:
+        return float(j["f"])
+    if "s" in j:
+        return j["s"]
+    if "l" in j:
+        return [dec(x) for x in j["l"]]
+    return {dec(k): dec(x) for k, x in j["m"]}
+
+
+def enc(j):
+    """portable JSON -> driver JSON (strings as code point arrays)"""
+    if j is None or isinstance(j, bool):
+        return j
+    if "i" in j:
+        return j
+    if "f" in j:
+        return {"f": cps(j["f"])}
+    if "s" in j:
+        return {"s": cps(j["s"])}
+    if "l" in j:
+        return {"l": [enc(x) for x in j["l"]]}
+    return {"m": [[enc(k), enc(x)] for k, x in j["m"]]}
+
+
 def make_request(case, impl, gen):
-    return {"op": "ping"}
+    return {"op": "load.case", "kind": case["kind"], "doc": enc(case["doc"])}
 
 
 def judge(case, impl, reply):
-    key = (case["kind"], repr(case["doc"]))
+    """The deciding judgement on the real code (`judge_impl`), then the model comparison."""
+    v = judge_impl(case, impl)
+    if v.status == "violation" and not v.finding:
+        return v
+    dom = "inDomain" if reply["inDomain"] else "outOfDomain"
+    v.tags = tuple(v.tags) + (f"model:{dom}", f"model:{case['kind']}:{dom}")
+    if not reply["inDomain"]:
+        return v
+    py = lambda o: o.replace("py:", "other:", 1)
+    m_strict, m_collect, m_errs = py(reply["strict"]), py(reply["collect"]), reply["errors"]
+    i_errs = impl.get("errs", []) if impl["collect"] == "ok" else []
+    if (m_strict, m_collect, m_errs) != (impl["strict"], impl["collect"], i_errs):
+        what = (f"{case['kind']}: model strict={m_strict} collect={m_collect} errors={m_errs} but implementation "
+                f"strict={impl['strict']} collect={impl['collect']} errors={i_errs} :: {case['mut']} :: {repr(dec(case['doc']))[:400]}")
+        print("DRIFT " + what, file=sys.stderr)
+        return Verdict("drift", what, v.nontrivial, v.key, tags=v.tags + ("model:drift",))
+    return v
+
+
+def judge_impl(case, impl):
+    doc = dec(case["doc"])
+    key = (case["kind"], repr(doc))
     nt = case["mut"] != "base"
     tags = [f"kind:{case['kind']}", f"strict:{impl['strict'].split(':')[0]}", f"collect:{impl['collect'].split(':')[0]}", f"mut:{case['mut'].split(':')[0]}"]
-    doc_s = repr(case["doc"])[:300]
+    doc_s = repr(doc)[:300]
     if impl["strict"].startswith("other:"):
         fid = finding_for(impl["site"], impl["strict"])
         return Verdict("violation", f"strict loading of a {case['kind']} raised non-Sigma {impl['strict']} at {impl['site']}: {impl['strict_msg']} :: {case['mut']} :: {doc_s}",
